@@ -419,7 +419,7 @@ func init() {
 		LeaveGroupRequest LeaveGroupResponse SyncGroupResponse OffsetRequest AddPartitionsToTxnRequest AddOffsetsToTxnRequest
 		AddOffsetsToTxnResponse DescribeGroupsRequest SaslHandshakeRequest SaslHandshakeResponse SaslAuthenticateRequest
 		SaslAuthenticateResponse DeleteGroupsRequest DeleteGroupsResponse CreateTopicsResponse JoinGroupResponse OffsetFetchResponse
-		AlterPartitionReassignmentsRequest ListPartitionReassignmentsRequest`) {
+		AlterPartitionReassignmentsRequest ListPartitionReassignmentsRequest MetadataResponse OffsetCommitRequest FetchRequest`) {
 		schemaBodies[n] = true
 	}
 }
